@@ -12,15 +12,20 @@ macro_rules! dispatch {
     ($id:expr, $f:ident, $($args:expr),*) => {
         match $id {
             "C01" => $f::<props::c01::C01>($($args),*),
+            "C02" => $f::<props::c02::C02>($($args),*),
+            "C03" => $f::<props::c03::C03>($($args),*),
             "C04" => $f::<props::c04::C04>($($args),*),
             "C06" => $f::<props::c06::C06>($($args),*),
             "C07" => $f::<props::c07::C07>($($args),*),
             "C08" => $f::<props::c08::C08>($($args),*),
             "C09" => $f::<props::c09::C09>($($args),*),
+            "C10" => $f::<props::c10::C10>($($args),*),
             "C11" => $f::<props::c11::C11>($($args),*),
             "C13" => $f::<props::c13::C13>($($args),*),
+            "C14" => $f::<props::c14::C14>($($args),*),
             "C15" => $f::<props::c15::C15>($($args),*),
             "C16" => $f::<props::c16::C16>($($args),*),
+            "C17" => $f::<props::c17::C17>($($args),*),
             "C18" => $f::<props::c18::C18>($($args),*),
             "C19" => $f::<props::c19::C19>($($args),*),
             "C20" => $f::<props::c20::C20>($($args),*),
